@@ -49,8 +49,11 @@ def special_inputs():
     add({"m": "DEFINE <P> ; <P> AS $0 END DEFINE x := 1; y := 2"})
     add({"m": "DEFINE f <ARGS> AS x := 1 END DEFINE f 1, 2"})
     # a macro that inserts a slot twice and matches its own output: the stream doubles with every pass
+    # (these reach the 2^20-token bound of the expansion; they go to the plain build directly, see run())
     add({"m": "DEFINE w <V> AS w RUN f WITH $0 , $0 END END DEFINE\nw a\n"})
+    S[-1]["slow"] = True
     add({"m": "DEFINE PRIO 3 d <ID> := <V> AS d $0 := RUN g WITH $1 , $1 , $1 END END DEFINE d x := 1"})
+    S[-1]["slow"] = True
     add({"m": "DEFINE AS AS AS END DEFINE x := 1"})
     add({"m": "END DEFINE x := 1"})
     add({"m": "x := 1 END END END"})
@@ -161,8 +164,8 @@ def run(chk):
     # generous limit (x50 over the measured worst case) before it is called a hang.
     th_plain = build("plain")
     events = {}
-    slow = []
-    todo = list(inputs)
+    slow = [x for x in inputs if x.get("slow")]
+    todo = [x for x in inputs if not x.get("slow")]
     rounds = 0
     while todo and rounds < 6:
         rounds += 1
@@ -201,7 +204,8 @@ def run(chk):
     evs = []
     for i in sorted(events):
         x = events[i]
-        evs.append({"e": "compile", "input": i, "ok": x["ok"], "errors": [{"t": e["t"], "file": e["file"], "line": e["line"], "msglen": e["msglen"]} for e in x["errors"]],
+        evs.append({"e": "compile", "input": i, "ok": x["ok"], "nerrors": len(x["errors"]),
+                    "errors": [{"t": e["t"], "file": e["file"], "line": e["line"], "msglen": e["msglen"]} for e in x["errors"][:300]],
                     "files": x["files"], "requests": x["requests"]})
     d = rundir(chk.pid, "iface_in")
     nb = NCPU
